@@ -21,7 +21,7 @@ def sh(cmd, cwd=None, env=None, timeout=900):
     return p.returncode, p.stdout + p.stderr
 
 
-def one(rdir, run_tests=True):
+def one(rdir, run_tests="--no-tests" not in sys.argv):
     wt = os.path.dirname(os.path.dirname(rdir))
     tmp = tempfile.mkdtemp(prefix="rfv-")
     tree = tmp + "/tree"
@@ -53,7 +53,7 @@ def one(rdir, run_tests=True):
 
 
 def main():
-    dirs = sys.argv[1:] or sorted(glob.glob("/tmp/rf_*/REFACTOR/r*"))
+    dirs = [a for a in sys.argv[1:] if not a.startswith("--")] or sorted(glob.glob("/tmp/rf_*/REFACTOR/r*"))
     by_wt = {}
     for d in dirs:
         by_wt.setdefault(os.path.dirname(os.path.dirname(d)), []).append(d)
